@@ -380,6 +380,37 @@ pub fn run_hist_check(prop: &str, tier: &str, seed: u64, workers: u64, runs_over
         harness_error = true;
     }
 
+    // process-level isolation (C06 only): the same runs executed after *other* predecessors in another
+    // process must give the same answers; a difference means some process-wide state (a static memo, an
+    // interner, a thread-local) makes results depend on what other engines did before
+    let mut isolation_compared = 0u64;
+    if prop == "C06" && !harness_error {
+        let k = total.min(if tier == "thorough" { 2048 } else { 192 });
+        let second = fan_out("worker", prop, seed, k, 3, tr.deadline_s, true);
+        for (idx, (d, _)) in &second.digests {
+            if let Some((d0, _)) = agg.digests.get(idx) {
+                isolation_compared += 1;
+                if d != d0 && !violations.iter().any(|v| v.0.starts_with("isolation")) {
+                    // order in which the second pass ran this run's predecessors
+                    let w = idx % 3;
+                    let mut order: Vec<u64> = (0..k).filter(|i| i % 3 == w && i > idx).collect();
+                    order.reverse();
+                    order.push(*idx);
+                    let p = format!("{}/replays/C06-isolation-{}.json", VERIF_DIR, idx);
+                    let _ = std::fs::create_dir_all(format!("{}/replays", VERIF_DIR));
+                    std::fs::write(&p, serde_json::to_string_pretty(&json!({"property": "C06", "kind": "isolation", "seed": seed, "order": order, "note": "run the listed run indices in this order in one process; the answers of the last one differ from the answers it gives when it runs alone"})).unwrap()).unwrap();
+                    let (rc, rout) = run_child(&["replay", &p]);
+                    if rc == 1 && rout.contains("REPRODUCED") {
+                        violations.push((format!("isolation: answers of history run {} depend on which other engines ran before it in the same process", idx), p));
+                    } else {
+                        eprintln!("harness error: isolation difference of run {} did not replay: {}", idx, rout);
+                        harness_error = true;
+                    }
+                }
+            }
+        }
+    }
+
     // minimise up to 3 distinct violation classes, verify each replay in a fresh process
     let mut seen = BTreeSet::new();
     let replays_dir = format!("{}/replays", VERIF_DIR);
@@ -455,6 +486,7 @@ pub fn run_hist_check(prop: &str, tier: &str, seed: u64, workers: u64, runs_over
             "fused_rule_matched_in_debug_worlds": g("fused_rule_matched"),
             "reach_probes": agg.stats.iter().filter(|(k, _)| k.starts_with("probe_")).map(|(k, v)| (k.clone(), json!(v))).collect::<serde_json::Map<String, Value>>(),
             "witnesses": witness_report,
+            "process_isolation_runs_compared": isolation_compared,
             "components_real": COMPONENTS_REAL,
             "components_stub": COMPONENTS_STUB,
             "workers": workers,
@@ -747,6 +779,9 @@ pub fn worker_c10(seed: u64, buffers: u64, n_sampled: u64, start: u64, stride: u
         'outer: for bi in 0..buffers {
             let bs = buffer_set(seed, bi, n_sampled);
             let mut target = Target::build(&bs.target_world, &bs.target_tags);
+            let mut pre: Vec<String> = vec![];
+            let alt_tags: Vec<String> = bs.target_world.tags.iter().filter(|t| !bs.target_tags.contains(t)).cloned().collect();
+            let want_alt = reference_answers(&bs, &alt_tags);
             // the pristine buffers themselves must load (fault-free configuration of the same path)
             for (ki, kind) in KINDS.iter().enumerate() {
                 let cnt = bs.space.count(kind);
@@ -766,7 +801,29 @@ pub fn worker_c10(seed: u64, buffers: u64, n_sampled: u64, start: u64, stride: u
                     if bytes != bs.space.a {
                         keys.push(distinct_key(kind, &bytes));
                     }
-                    let v = run_case(&mut target, kind, &bytes, *kind == "lost_write", &mut st);
+                    let mut v = run_case(&mut target, kind, &bytes, *kind == "lost_write", &mut st);
+                    if st.last_err {
+                        if pre.len() < 64 {
+                            pre.push(hex(&bytes));
+                        }
+                    } else {
+                        pre.clear();
+                    }
+                    // every 50th case: offer the same bytes twice more (same outcome expected), then a
+                    // fault-free load of the pristine image under another tag set (must behave like the
+                    // engine the image was taken from)
+                    let mut followup = "";
+                    if v.is_none() && st.cases % 50 == 7 {
+                        followup = "repeat";
+                        v = repeat_load(&mut target, &bytes, &mut st);
+                        if v.is_none() {
+                            followup = "probe";
+                            v = probe_load(&mut target, &bs, &alt_tags, want_alt, &mut st);
+                            if v.is_none() {
+                                pre.clear();
+                            }
+                        }
+                    }
                     if samples < 3 && start == 0 && idx % 97 == 5 {
                         samples += 1;
                         let mut l = out.lock();
@@ -775,7 +832,14 @@ pub fn worker_c10(seed: u64, buffers: u64, n_sampled: u64, start: u64, stride: u
                     if let Some(v) = v {
                         nviol += 1;
                         if nviol <= 6 {
-                            let rp = replay_of(&bs, kind, idx, &bytes, Some(v));
+                            let mut rp = replay_of(&bs, kind, idx, &bytes, Some(v));
+                            if !followup.is_empty() {
+                                rp.followup = followup.to_string();
+                                rp.image_hex = hex(&bs.space.a);
+                                rp.image_world = Some(bs.world_a.clone());
+                                rp.alt_tags = alt_tags.clone();
+                                rp.pre_hex = pre[..pre.len().saturating_sub(1)].to_vec();
+                            }
                             let mut l = out.lock();
                             let _ = writeln!(l, "W {}", serde_json::to_string(&rp).unwrap());
                         }
